@@ -1049,7 +1049,7 @@ def running_variants(rng, levels, target, parents):
 
 def generate(ctx):
     rng = ctx.rng
-    n_graphs = ctx.n(75, 600)
+    n_graphs = ctx.n(66, 600)
     thorough = not ctx.quick
     cases, seen = [], set()
     for _ in range(n_graphs):
